@@ -4,6 +4,7 @@ import (
 	"fmt"
 	"os"
 	"path/filepath"
+	"strings"
 	"time"
 
 	"tags.cncf.io/container-device-interface/pkg/cdi"
@@ -309,10 +310,10 @@ func genCacheSuite(r *hx.R, tier, scratch, prop string) (*hx.Suite, error) {
 	}
 	// faults repaired from outside the file: a Spec file which is a dangling link is repaired by its target appearing (the
 	// link itself is not touched), broken again by the target going away, and repaired again
-	for k := 0; faults && k < 6; k++ {
+	for k := 0; k < 6; k++ {
 		root := filepath.Join(scratch, fmt.Sprintf("r%d", k))
 		auto := defectPendingLinkTargetUnwatched && k%3 == 2
-		opts := fsOpts{faults: true, auto: auto}
+		opts := fsOpts{faults: faults, auto: auto}
 		fs := genFS(r, root, opts)
 		d := &absDir{Path: filepath.Join(root, "links"), State: dirDir, Entries: genDirEntries(r, "links", opts)}
 		name := hx.Pick(r, []string{"a.json", "d.yaml", "l.json", "0.yaml", "zz.json"})
@@ -322,7 +323,11 @@ func genCacheSuite(r *hx.R, tier, scratch, prop string) (*hx.Suite, error) {
 				kept = append(kept, e)
 			}
 		}
-		d.Entries = append(kept, absEntry{Name: name, Kind: entInvalid, Invalid: "dangling"})
+		// every run: entries one cannot read a Spec from (links to directories, a socket, a FIFO) sorting before a valid file
+		special := []absEntry{{Name: "00dl.json", Kind: entInvalid, Invalid: "linktodir"}, {Name: "01sock", Kind: entInvalid, Invalid: "socket"},
+			{Name: "02fifo", Kind: entInvalid, Invalid: "fifo"}, {Name: "03dl", Kind: entInvalid, Invalid: "linktodir"}, {Name: "04sock.yaml", Kind: entInvalid, Invalid: "socket"},
+			{Name: "zzz.yaml", Kind: entValid, Spec: genSpecDefining(r, "links/zzz.yaml", "vendor2.org/nic", "dev2")}}
+		d.Entries = append(append(special, kept...), absEntry{Name: name, Kind: entInvalid, Invalid: "dangling"})
 		fs.add(d)
 		if k%2 == 1 {
 			l := len(fs.Dirs) - 1
@@ -362,6 +367,69 @@ func genCacheSuite(r *hx.R, tier, scratch, prop string) (*hx.Suite, error) {
 		}
 		if auto {
 			_ = cache.Configure(cdi.WithAutoRefresh(false))
+		}
+	}
+	// configured paths one cannot scan, of every kind, every run, in every position among good directories: links leading
+	// nowhere or in a circle, a socket, links to Spec files, paths below a file or below a dangling link, over-long names
+	for k := 0; faults && k < 6; k++ {
+		root := filepath.Join(scratch, fmt.Sprintf("b%d", k))
+		opts := fsOpts{faults: true}
+		mkGood := func(tag string) *absDir {
+			d := &absDir{Path: filepath.Join(root, tag), State: dirDir, Entries: genDirEntries(r, tag, opts)}
+			var kept []absEntry
+			for _, e := range d.Entries {
+				if e.Name != "g.json" {
+					kept = append(kept, e)
+				}
+			}
+			d.Entries = append(kept, absEntry{Name: "g.json", Kind: entValid, Spec: genSpecDefining(r, tag+"/g.json", "vendor1.com/gpu", "dev1")})
+			return d
+		}
+		fileAs := func(name string, e absEntry) *absDir {
+			e.Name = name
+			return &absDir{Path: filepath.Join(root, name), State: dirIsFile, File: &e}
+		}
+		bad := []*absDir{
+			fileAs("dangling.json", absEntry{Kind: entInvalid, Invalid: "dangling"}),
+			fileAs("dangling", absEntry{Kind: entInvalid, Invalid: "dangling"}),
+			fileAs("loop.yaml", absEntry{Kind: entInvalid, Invalid: "selflink"}),
+			fileAs("sock.json", absEntry{Kind: entInvalid, Invalid: "socket"}),
+			fileAs("toolong.json", absEntry{Kind: entInvalid, Invalid: "toolonglink"}),
+			fileAs("linked.json", absEntry{Kind: entValid, ViaLink: true, LinkHow: r.Intn(3), Spec: genSpecDefining(r, "linked.json", "vendor1.com/gpu", "dev1")}),
+			fileAs("linked", absEntry{Kind: entValid, ViaLink: true, Spec: genSpecDefining(r, "linked", "vendor1.com/gpu", "dev1")}),
+			{Path: filepath.Join(root, "f", "below"), State: dirUnscannable},
+			{Path: filepath.Join(root, "nowhere", "below"), State: dirMissing},                        // nowhere is a dangling link
+			{Path: filepath.Join(root, strings.Repeat("x", 300)), State: dirUnscannable, Unscan: "nametoolong"}, // never materialised: lstat fails with ENAMETOOLONG
+		}
+		g1, g2 := mkGood("good1"), mkGood("good2")
+		perm := r.Perm(len(bad))
+		pick := []*absDir{bad[perm[0]], bad[perm[1]], bad[perm[2]], bad[(k*2)%len(bad)], bad[(k*2+1)%len(bad)]}
+		fs := &absFS{}
+		switch k % 3 {
+		case 0:
+			fs.Dirs = []*absDir{pick[0], pick[3], g1, pick[1], g2, pick[2], pick[4]}
+		case 1:
+			fs.Dirs = []*absDir{g1, pick[0], pick[3], pick[4], pick[1], g2}
+		default:
+			fs.Dirs = []*absDir{pick[3], pick[0], pick[1], pick[2], pick[4], g1, g2, g1}
+		}
+		_ = os.MkdirAll(root, 0o755)
+		_ = os.Symlink(filepath.Join(root, "does-not-exist"), filepath.Join(root, "nowhere"))
+		seen := map[*absDir]bool{}
+		for _, d := range fs.Dirs {
+			if !seen[d] && d.State != dirMissing && d.Unscan != "nametoolong" {
+				d.materialise()
+			}
+			seen[d] = true
+		}
+		cache, _ := cdi.NewCache(cdi.WithSpecDirs(fs.dirList()...), cdi.WithAutoRefresh(false))
+		o0 := observeCache(cache, fs.probeNames(), false)
+		o := observeCache(cache, fs.probeNames(), true)
+		o0.RefErr = o.RefErr
+		for i, ob := range []cacheObs{o0, o} {
+			s.Add(hx.Case{Term: hx.C("Case01", fs.term(), ob.term()),
+				Desc:  map[string]interface{}{"dirs": fs.desc(), "auto_refresh": false, "history": []string{}, "refreshed_explicitly": i == 1, "observed": obsDesc(ob)},
+				Class: "bad-directory-paths", Key: fs.term() + fmt.Sprint(i), Nontrivial: true})
 		}
 	}
 	for li := 0; li < layouts; li++ {
@@ -466,7 +534,7 @@ func genCacheSuite(r *hx.R, tier, scratch, prop string) (*hx.Suite, error) {
 		}
 		obsDefaultAPI = false
 	}
-	s.Extra = map[string]interface{}{"x_auto_refresh_observations": autoTotal, "x_permission_faults_available": capsOK}
+	s.Extra = map[string]interface{}{"x_auto_refresh_observations": autoTotal, "x_permission_faults_available": capsOK, "x_settle_deadlines_hit": settleDeadlines}
 	return s, nil
 }
 
